@@ -192,6 +192,9 @@ def _sharing_docs():
         "clone_id_taken_by_path": f'<svg {NS} viewBox="0 0 100 100"><defs>{g("leaf")}</defs><path id="leaf_0" d="M0,0 L10,0 L10,10 Z"/><rect y="50" width="20" height="20" fill="url(#leaf)" transform="scale(1.5)"/></svg>',
         "idd_shape_instanced_twice_and_stroked": f'<svg {NS} viewBox="0 0 100 100"><defs><rect id="r" width="10" height="10" stroke="black" fill="red"/></defs><use xlink:href="#r"/><use xlink:href="#r" x="30"/></svg>',
         "stroke_with_gradient_no_viewbox": f'<svg {NS}><defs>{g("edge")}</defs><path d="M5,5 L40,5 L40,40" fill="none" stroke="url(#edge)" stroke-width="3"/></svg>',
+        "gradient_id_with_a_dot": f'<svg {NS} viewBox="0 0 100 100"><defs>{g("sky.1")}</defs><rect width="20" height="20" fill="url(#sky.1)"/></svg>',
+        "drop_unsupported_drops_the_last_user": (f'<svg {NS} viewBox="0 0 100 100"><defs>{g("sky")}</defs><switch><rect width="20" height="20" fill="url(#sky)"/></switch><rect x="30" width="5" height="5"/></svg>', dict(drop_unsupported=True)),
+        "allow_text_gradient_painted_text": (f'<svg {NS} viewBox="0 0 100 100"><defs>{g("sky")}</defs><text x="5" y="20" fill="url(#sky)">a</text><rect x="30" width="5" height="5"/></svg>', dict(allow_text=True)),
         "gradient_only_in_defs_shape_used_transformed": f'<svg {NS} viewBox="0 0 100 100"><defs>{g("a")}<rect id="r" width="10" height="10" fill="url(#a)"/></defs><use xlink:href="#r" transform="translate(20 20) rotate(15)"/></svg>',
     }
 
@@ -204,12 +207,13 @@ def _refs_run(shard):
 
         res = ComponentResult()
         res.rule = "unique ids, every url() points at a gradient in defs, every gradient in defs is referenced (reference-graph oracle) on documents built around sharing patterns"
-        res.bound = "6 hand-written sharing patterns"
+        res.bound = f"{len(_sharing_docs())} hand-written sharing patterns"
         for name, doc in _sharing_docs().items():
+            doc, opts = doc if isinstance(doc, tuple) else (doc, {})
             res.evaluations += 1
             res.distinct_nontrivial += 1
             try:
-                out = _convert(doc)
+                out = _convert(doc, **opts)
             except Exception as e:  # noqa
                 res.samples.append(dict(doc=name, outcome=f"raises {type(e).__name__}"))
                 continue
